@@ -5,6 +5,7 @@ mod c04;
 mod c08;
 mod c15;
 mod c16;
+mod c17;
 mod cards;
 mod evalrun;
 mod rng;
@@ -54,6 +55,7 @@ fn real_main(args: Vec<String>) -> i32 {
                 "C08" => c08::run(tier),
                 "C15" => c15::run(tier),
                 "C16" => c16::run(tier),
+                "C17" => c17::run(tier),
                 _ => usage(),
             }
         }
@@ -75,6 +77,7 @@ fn real_main(args: Vec<String>) -> i32 {
                 "C08" => c08::replay(&v),
                 "C15" => c15::replay(&v),
                 "C16" => c16::replay(&v),
+                "C17" => c17::replay(&v),
                 _ => {
                     eprintln!("HARNESS ERROR: unknown property in replay file");
                     return 2;
